@@ -13,8 +13,13 @@ SPEC = {
             "channel widths), BMP and PNG (8-bit) decoded by independent Python decoders and loaded back; a sample of the images "
             "is first routed through every way an Image object can come to hold them (copy/move ctor, copy/move assignment onto "
             "default-constructed and differently formatted images, raw-data constructors, load, set_channel_width/set_has_alpha) "
-            "and must then save the same bytes / round-trip exactly. Fault enumeration: "
-            "every prefix length 0..len-1 of every generated or saved file <= 4096 bytes. "
+            "and must then save the same bytes / round-trip exactly. Encoded-size ladder: sizes that only emerge after "
+            "encoding are steered onto every 2^k and 3*2^k (exactly and +-1 where reachable): the deflated IDAT payload "
+            "and the total length of saved PNGs (number of incompressible raster bytes steered by measuring the real writer's "
+            "output; 64x64 and smaller images, RGB/RGBA, three raster recipes; payload also onto every multiple of 1 KiB "
+            "up to 16 KiB), the total length of every input family's files (dimensions x header style, BMP: gap) and of "
+            "saved PPM/BMP files and the raw PNG raster (dimensions). Fault enumeration: "
+            "every prefix length 0..len-1 of every generated or saved file <= 4224 bytes. "
             "distinct_nontrivial = distinct (operation, container family, channel width/alpha, stream kind, w mod 4) classes.",
     "level_text": "Fault enumeration: the fault model (truncation at any byte) is enumerated completely for every file of the "
                   "workload; the file workload itself is a finite enumeration of dimensions crossed with rotating (quick) or "
@@ -52,9 +57,20 @@ SPEC = {
         "history:copy-assign:cw32", "history:copy-assign:cw64", "history:move-ctor:cw16", "history:move-assign:cw8",
         "history:move-assign:cw32", "history:raw-load:cw8", "history:raw-load:cw64", "history:loaded:cw8", "history:loaded:cw16",
         "history:convert:cw8", "history:convert:cw16", "history:convert:cw32", "history:convert:cw64",
+        # encoded-size ladder: the IDAT payload of a saved PNG hit every 2^k / 3*2^k from 2^8 to 2^14 exactly (judge's own
+        # measurement of the bytes the real writer produced), and one byte to either side of the chunk-size-like ones
+        "png-idat-size:256:=", "png-idat-size:384:=", "png-idat-size:512:=", "png-idat-size:768:=", "png-idat-size:1024:=",
+        "png-idat-size:1536:=", "png-idat-size:2048:=", "png-idat-size:3072:=", "png-idat-size:4096:=", "png-idat-size:6144:=",
+        "png-idat-size:8192:=", "png-idat-size:12288:=", "png-idat-size:16384:=",
+        "png-idat-size:4096:-1", "png-idat-size:4096:+1", "png-idat-size:8192:-1", "png-idat-size:8192:+1",
+        "png-idat-size:16384:-1", "png-idat-size:16384:+1",
+        "png-file-size:4096", "png-file-size:8192", "png-file-size:16384",
+        "save:png:ladder:cw8:*", "save:png:ladder:cw8a:*", "oracle-selftest:png-decoder",
+        "file-size:ppm-input:4096", "file-size:ppm-input:8192", "file-size:bmp-input:4096", "file-size:bmp-input:8192",
+        "file-size:saved-ppm:4096", "file-size:saved-ppm:8192", "file-size:png-raster:4096",
     ],
     "exhaustive": {"quick": False, "thorough": False},
-    "exhaustive_note": "complete: every truncation point of every file <= 4 KiB in the workload; all 24 BI_BITFIELDS byte-mask "
+    "exhaustive_note": "complete: every truncation point of every file <= 4 KiB (+128 bytes) in the workload; all 24 BI_BITFIELDS byte-mask "
                        "permutations x 3 header sizes x 2 row orders x 2 gaps; all (w,h) in [1,8]^2 and every w in 1..64 for "
                        "each family. Not complete: pixel contents (seeded), the cross product variants x dimensions (rotated).",
     "assumptions": ASSUME_COMMON + [
@@ -64,5 +80,7 @@ SPEC = {
         "16/32/64-bit PPM samples use phosg's host-order convention on both sides; only 8-bit PPM output is checked against the "
         "Netpbm definition; grayscale with maxval > 65535 (outside Netpbm) is executed for memory safety only",
         "Netpbm comment lines and CR/VT/FF as the final header separator are not generated (phosg documents neither)",
+        "encoded-size ladder: a target size counts as covered only when the judge measured it on bytes the real writer produced; "
+        "saved BMP lengths are always 2 mod 4, so they cross the boundaries (nearest size on either side) but never hit them",
     ],
 }
